@@ -158,7 +158,7 @@ def _str_ctor(em, node, args):
 
 
 def _atomic_type(em, base, targs, name):
-    if base == "std::atomic" and targs:
+    if base in ("std::atomic", "std::__atomic_base") and targs:
         em.report["std::atomic<T> fields laid out as plain T (atomicity dropped; sequential semantics)"] += 1
         return em._ctype(targs[0])
     return None
